@@ -1277,6 +1277,22 @@ pub fn verif_intersect(a: &Value, b: &Value) -> Result<(String, String, Result<S
             ),
             Schema::AnyOf(v) => format!("(anyof {})", list(v)),
             Schema::OneOf(v) => format!("(oneof {})", list(v)),
+            Schema::Object(o) if o.pattern_properties.is_empty() => format!(
+                "(obj ({}) {} ({}) {} {})",
+                o.properties
+                    .iter()
+                    .map(|(k, v)| format!("({} {})", hex(k.as_bytes()), dump(v)))
+                    .collect::<Vec<_>>()
+                    .join(" "),
+                opt(&o.additional_properties, |x| dump(x)),
+                o.required
+                    .iter()
+                    .map(|k| hex(k.as_bytes()))
+                    .collect::<Vec<_>>()
+                    .join(" "),
+                o.min_properties,
+                opt(&o.max_properties, |x| x.to_string())
+            ),
             Schema::Object(_) => "(object)".to_string(),
             Schema::Ref(_) => "(ref)".to_string(),
         }
